@@ -27,22 +27,32 @@ KNOWN_WITNESSES = {
                                                             ('pickle', 'P', 1, 0), ('unpickle', 'P', 1, 0)]),
 }
 META = {
-    'extractors': ['cache'],
+    'extractors': ['cache', 'pycache'],
     'technique': ('Lean 4 proof (state-machine invariants preserved by every step, lifted to every history by '
-                  'induction over the op list) + extracted CacheFactory defaults + differential correspondence on op histories'),
+                  'induction over the op list) + extracted CacheFactory defaults + every CacheFactory method TRANSLATED from '
+                  'cache.py into a deep embedding (PyCache) and proved equal to the model function by symbolic execution '
+                  '(C04_translated_*_eq_model) + differential correspondence on op histories'),
     'level_text': ('Theorems over the executable model Model/Cache.lean of cache.py + the SQLObject life cycle '
                    '(get/put/finishPut, created, cull, expire, expireAll, destroySelf, __getstate__/__setstate__), for every history, '
                    'every cullFrequency / cullFraction, doCache on and off, refcounting or deferred collection: '
                    'C04_identity_partial / C04_get_returns_live / C04_unpickle_no_dup / C04_deleted_never_returned_partial for '
                    'histories that never detach a held instance (obj.expire(), connection.expireAll()), never unpickle a '
                    'deleted row and never destroy an instance twice; '
-                   'the full statements are refuted by concrete witnesses (C04_*_full_FALSE) that this harness replays on the real code.'),
+                   'the full statements are refuted by concrete witnesses (C04_*_full_FALSE) that this harness replays on the real code. '
+                   'The CacheFactory part of the model (tryGet, get = lookupCache . tick, put, finishPut, created, cull, expire, '
+                   'expireAll) is not only hand-written: vlib/extractors/pycache.py translates the method bodies from the AST on every '
+                   'run and C04_translated_<method>_eq_model proves, for all states (representation invariant Rep: the association lists '
+                   'have distinct keys, strongly cached objects are alive; cullFraction != 0), that running the translated method '
+                   'yields the image of what the model function yields.'),
     'level_note': ('Trusted: Lean kernel; the hand-written model of cache.py/main.py, tied to the code by the op-history '
                    'correspondence (sampling); CPython reference counting / weakref / pickle / SQLite are modelled, not verified.'),
     'rule': ('case = (doCache, cullFrequency, cullFraction, op history); guarded stream (no detaching expire, no unpickle of a deleted row; plus a stream with falsy row objects: '
              'the oracle must hold) and free stream (every op at any time: oracle failures are shrunk and keyed by their minimal shape); '
              'distinct = distinct (cfg, history); non-trivial = the history has at least one cache hit on a held object, cull or gc'),
-    'trusted': ['model of CPython reference counting: an object dies as soon as neither the application nor the strong cache '
+    'trusted': ['the reference semantics of the Python fragment cache.py is written in (lean/SqlObjVerif/Model/PyCache.lean: dicts as '
+                'insertion-ordered association lists, weakref liveness, lock as a held flag, try/except KeyError, try/finally, '
+                'for over snapshot lists / range) and the AST translator vlib/extractors/pycache.py',
+                'model of CPython reference counting: an object dies as soon as neither the application nor the strong cache '
                 'refers to it (SQLObject instances are not in reference cycles; checked by the harness: deaths are fed to the '
                 'model as gc ops and the model must agree that the object was collectable)',
                 'SQLite AUTOINCREMENT id assignment (largest id ever used + 1), cross-checked on every create'],
@@ -51,7 +61,10 @@ META = {
                  'the database: per class the set of ids that exist; what a query returns is an input of the op '
                  '(select / join id lists, alternate-id hit) filtered by existence',
                  'threads/locks are out of scope here (C09)'],
-    'assumptions': ['cullFraction >= 1 (0 makes the real cull raise ZeroDivisionError; the model then culls one fixed stride, the theorems do not depend on it)',
+    'assumptions': ['C04_translated_*_eq_model: representation invariant Rep (distinct keys; strongly cached objects alive) — proved to hold in '
+                    'every state a guarded history reaches (C04_translated_rep_reachable); where the model defers collection to its gc op '
+                    '(expire, expireAll, an overwriting put/created) the dropped object is assumed not to die on the spot',
+                    'cullFraction >= 1 (0 makes the real cull raise ZeroDivisionError; the model then culls one fixed stride, the theorems do not depend on it)',
                     'rows are deleted only through destroySelf on this connection (out-of-band SQL is C05/C07 matter)',
                     'no per-instance connection (such instances refuse to be pickled)'],
     'exhaustive': False,
